@@ -50,6 +50,9 @@ def confirm(sid):
             if cand and os.path.isdir(os.path.join(wt, cand)) and any(f.endswith(".go") for f in os.listdir(os.path.join(wt, cand))):
                 pkgdir = cand
                 break
+        mpk = re.search(r"^package (\w+)", demo, re.M)
+        if mpk and mpk.group(1) == "ro":
+            pkgdir = "."  # the root package, whatever directories the demo's comments mention
         demo_path = os.path.join(wt, pkgdir, "zz_seed_demo_test.go")
         run = re.findall(r"func (Test\w+)\(", demo)
         pat = "|".join(run) if run else "."
